@@ -62,7 +62,7 @@ class SimClock:
         over = self.reads_since_event - self.stall
         if over > 0:
             self.escalations += 1
-            dt += 0.001 * (2 ** min(over - 1, 40))
+            dt += 0.001 * (2 ** min(over - 1, 22))
         if self.pending:
             dt += self.pending
             self.pending = 0.0
